@@ -294,12 +294,15 @@ func corsRequests(cfg corsCfg, r *ref.R, random bool) []corsReq {
 		"prefix-of-allowed":    properPrefix(longest),
 		"extension-of-allowed": pickH(0) + "-More",
 		"empty-element":        pickH(0) + ",," + pickH(1),
+		// scale: forty entries; all allowed, and all allowed but the last
+		"forty-allowed":         strings.Repeat(pickH(0)+", "+strings.ToLower(pickH(1))+", ", 20) + pickH(2),
+		"forty-then-disallowed": strings.Repeat(pickH(0)+", "+strings.ToLower(pickH(1))+", ", 20) + rs("X-Evil"),
 	}
 	for _, m := range []string{"GET", "HEAD", "POST", "OPTIONS", "PUT", "BOGUS"} {
 		for _, pc := range []string{"live", "notfound", "star"} {
 			for _, o := range originClasses {
-				for _, acrm := range []string{"", "GET", "POST", "DELETE", "get", "GE", "GET, HEAD", "PROPFIND", "HEAD", "OPTIONS"} {
-					for _, hn := range []string{"absent", "as-configured", "lower-case", "each-upper-case", "mixed-spaces", "one-disallowed", "prefix-of-allowed", "extension-of-allowed", "empty-element"} {
+				for _, acrm := range []string{"", "GET", "POST", "DELETE", "get", "GE", "GET, HEAD", "PROPFIND", "HEAD", "OPTIONS", "TRACE"} {
+					for _, hn := range []string{"absent", "as-configured", "lower-case", "each-upper-case", "mixed-spaces", "one-disallowed", "prefix-of-allowed", "extension-of-allowed", "empty-element", "forty-allowed", "forty-then-disallowed"} {
 						out = append(out, corsReq{Method: m, PathClass: pc, HasOrigin: o.has, Origin: o.val, ACRM: acrm, ACRH: acrhClasses[hn],
 							class: fmt.Sprintf("%s %s origin=%s acrm=%q acrh=%s", m, pc, o.name, acrm, hn)})
 					}
@@ -383,15 +386,21 @@ func corsRouter(c *Ctx, env *mon.Env, cfg corsCfg, pass int) *mux.Router[*mon.Hn
 	own := mux.WithCORS(cfg.Origins, cfg.AllowH, cfg.Exposed, cfg.MaxAge, cfg.Creds)
 	rec := mux.WithRecovery(func(w http.ResponseWriter, v any) { w.WriteHeader(500) })
 	var r *mux.Router[*mon.Hnd]
-	if pass%2 == 1 {
-		other := mux.WithCORS([]string{"https://group.example"}, []string{"X-Group"}, []string{"X-Group-Exposed"}, 7, true)
-		if len(cfg.Origins) > 0 && !hasAny(cfg.Origins) && c.R.Bool() {
-			other = mux.WithAllowedCORS(99)
-		}
+	// an earlier CORS option of another meaning: the later one (the configuration under test) replaces it entirely,
+	// also when it configures no origin at all
+	other := mux.WithCORS([]string{"https://group.example"}, []string{"X-Group"}, []string{"X-Group-Exposed"}, 7, true)
+	if !hasAny(cfg.Origins) && c.R.Bool() {
+		other = mux.WithAllowedCORS(99)
+	}
+	switch pass % 4 {
+	case 1, 3:
 		g := env.NewGroup(other, rec)
 		r = g.New("r", nil, own)
 		c.Class("router_made_by_group_with_other_cors_option")
-	} else {
+	case 2:
+		r = env.NewRouter("r", other, own, rec)
+		c.Class("router_with_an_earlier_cors_option_overridden")
+	default:
 		r = env.NewRouter("r", own, rec)
 	}
 	r.Handle("/c/{id}", env.NewHnd(mon.KRoute, "/c/{id}"), nil, "GET", "POST")
@@ -456,7 +465,7 @@ func corsHistory(c *Ctx, prop string, cfg corsCfg, r *mux.Router[*mon.Hnd], env 
 		cur := allow()
 		for _, m := range []string{"GET", "POST", "OPTIONS", "PUT", "DELETE"} {
 			for _, origin := range []string{"https://a.example", "https://evil.example"} {
-				for _, acrm := range []string{"", "GET", "POST", "PUT", "DELETE", "PATCH"} {
+				for _, acrm := range []string{"", "GET", "POST", "PUT", "DELETE", "PATCH", "HEAD", "OPTIONS", "TRACE"} {
 					if acrm != "" && m != "OPTIONS" {
 						continue
 					}
@@ -543,7 +552,7 @@ func init() {
 		}
 		return n * 8
 	}
-	rule := "the class product is enumerated completely: " + fmt.Sprint(n) + " configuration classes (origins none/any/one/several/any+others x allowed headers none/any/list/mixed-case unsorted list x exposed x max-age 0/-1/n x credentials, minus the rejected '*'+credentials) x 9720 request classes (6 methods x 3 paths x 6 origin classes x 10 Access-Control-Request-Method classes (absent, served, unserved, lower case, fragment, joined list, unknown, and the automatically served HEAD and OPTIONS) x 9 Access-Control-Request-Headers classes derived from the configured list: as configured, lower/upper case, spaced lists, one disallowed, proper prefix / extension of an allowed name, empty element); first pass canonical strings, further passes random instantiations; " +
+	rule := "the class product is enumerated completely: " + fmt.Sprint(n) + " configuration classes (origins none/any/one/several/any+others x allowed headers none/any/list/mixed-case unsorted list x exposed x max-age 0/-1/n x credentials, minus the rejected '*'+credentials) x 13068 request classes (6 methods x 3 paths x 6 origin classes x 11 Access-Control-Request-Method classes (absent, served, unserved, lower case, fragment, joined list, unknown, the automatically served HEAD and OPTIONS, and TRACE which is not served without WithTrace) x 11 Access-Control-Request-Headers classes derived from the configured list: as configured, lower/upper case, spaced lists, one disallowed, proper prefix / extension of an allowed name, empty element, forty entries all allowed / all but the last); first pass canonical strings, further passes random instantiations; " +
 		"non-trivial (distinct) = every (configuration class, request class, concrete strings) triple"
 	Register(&Engine{
 		ID: "C11", Cases: cases, Anchors: []string{"options.go:cors.handle", "options.go:cors.headerIsAllowed", "options.go:cors.sanitize"}, Run: func(c *Ctx) { runCORS(c, "C11") }, Directed: corsDirected("C11"), Rule: rule, Exhaustive: true,
